@@ -30,6 +30,12 @@ def load_mutants(prop):
         out = list(mod.MUTANTS)
     except ImportError:
         pass
+    # micro-twins (equivalent idiom at the exact spot a rule looks at): silent everywhere
+    try:
+        from selftest.mutants import zz_micro
+        out.extend(dict(m) for m in zz_micro.MICRO)
+    except ImportError:
+        pass
     # independently seeded breakages kept under /verif/seeded/<id>/
     sdir = os.path.join(VERIF, 'seeded')
     if os.path.isdir(sdir):
